@@ -4,39 +4,49 @@ FROM THE REGULAR EXPRESSION IN THE GO SOURCE TO THE PARSED VALUE.
 `FindStringSubmatch` spelled out for the two patterns.  Here those contracts are DERIVED from one generic statement about
 package regexp — `SubmatchSpec`: for a pattern anchored at both ends, `FindStringSubmatch(s)` is `nil` when `s` does not
 match, and otherwise `s` followed by the text of each capture group of a match, i.e. what stands between `openSym i` and
-`closeSym i` in a word of the MARKED language of the pattern over `s` (KlogV/Regex/Basic.lean) — instantiated with the
-syntax trees that `klogv extract` produced from the patterns in the Go source on this run (`Gen.rx_klog_timePattern`,
-`Gen.rx_klog_durationPattern`), through the kernel-checked equivalence with the expected patterns (§0.9) and the
-marked-language theorems `Regexes.time_marked`, `time_groups`, `duration_marked`, `duration_groups`.
+`closeSym i` in a word of the MARKED language of the pattern over `s` (KlogV/Regex/Basic.lean) — for ANY pattern whose marked language is
+the expected one — and the syntax trees that `klogv extract` produced from the patterns in the Go source on this run contain
+such patterns (`time_pattern_in_source`, `duration_pattern_in_source`: the kernel-checked, name-independent ties of §0.9) —
+through the marked-language theorems `Regexes.time_marked`, `time_groups`, `duration_marked`, `duration_groups`.
 What remains assumed about Go's regexp package is `SubmatchSpec` itself.
 Property theorems only (helper lemmas: KlogV/Lemmas/GoRx*.lean).
 -/
 import KlogV.Lemmas.GoRx
+import KlogV.Props.Rx.Values
 namespace KlogV.GoTie
 open KlogV.Go KlogV.Rx
 
-/-- the patterns of the code denote the expected marked languages (decided in the kernel by the verified checker) -/
-theorem timePattern_tied : equivCheck 2000 (mark Gen.rx_klog_timePattern) (mark Expect.time) = true := by decide +kernel
-theorem durationPattern_tied : equivCheck 2000 (mark Gen.rx_klog_durationPattern) (mark Expect.duration) = true := by decide +kernel
+/-- `re` has the marked language of `expect`: same words, capture-group boundaries included -/
+def SameMarked (re expect : Re) : Prop := ∀ env m, Matches env (mark re) m ↔ Matches env (mark expect) m
 
-theorem timeFind_of_spec (env : Env) (find : Str → List Str) (h : SubmatchSpec env Gen.rx_klog_timePattern 5 find) :
-    TimeFind find :=
-  GoL.timeFind_of_spec env find h
+/-- the Go source contains patterns with the marked languages of the expected time and duration patterns, anchored at both
+ends and fully inside the translated fragment (the name-independent ties of §0.9, decided in the kernel) -/
+theorem time_pattern_in_source :
+    ∃ g ∈ Gen.allRegexes, g.2.2.1 = (true, true) ∧ g.2.2.2 = [] ∧ SameMarked g.2.1 Expect.time :=
+  KlogV.Regexes.tie_sound Regexes.time
+theorem duration_pattern_in_source :
+    ∃ g ∈ Gen.allRegexes, g.2.2.1 = (true, true) ∧ g.2.2.2 = [] ∧ SameMarked g.2.1 Expect.duration :=
+  KlogV.Regexes.tie_sound Regexes.duration
 
-theorem durFind_of_spec (env : Env) (find : Str → List Str) (h : SubmatchSpec env Gen.rx_klog_durationPattern 5 find) :
-    DurFind find :=
-  GoL.durFind_of_spec env find h
+theorem timeFind_of_spec (env : Env) (re : Re) (hre : SameMarked re Expect.time) (find : Str → List Str)
+    (h : SubmatchSpec env re 5 find) : TimeFind find :=
+  GoL.timeFind_of_spec env re hre find h
 
-/-- Go source → value: whatever implements `FindStringSubmatch` for the time pattern OF THE SOURCE as package regexp
-documents it, `NewTimeFromString` of the source is the model's `Time.parse` -/
-theorem newTimeFromString_of_regexp (env : Env) (find : Str → List Str)
-    (h : SubmatchSpec env Gen.rx_klog_timePattern 5 find) (s : List Char) :
+theorem durFind_of_spec (env : Env) (re : Re) (hre : SameMarked re Expect.duration) (find : Str → List Str)
+    (h : SubmatchSpec env re 5 find) : DurFind find :=
+  GoL.durFind_of_spec env re hre find h
+
+/-- Go source → value: whatever implements `FindStringSubmatch`, as package regexp documents it, for a pattern with the
+marked language of the time pattern — such as the one in the source (`time_pattern_in_source`) — `NewTimeFromString` of the
+source is the model's `Time.parse` -/
+theorem newTimeFromString_of_regexp (env : Env) (re : Re) (hre : SameMarked re Expect.time) (find : Str → List Str)
+    (h : SubmatchSpec env re 5 find) (s : List Char) :
     (GoSrc.NewTimeFromString find s).res = (optRes (Time.parse s)).map Time.toGo :=
-  newTimeFromString_eq find (timeFind_of_spec env find h) s
+  newTimeFromString_eq find (timeFind_of_spec env re hre find h) s
 
-theorem newDurationFromString_of_regexp (env : Env) (find : Str → List Str)
-    (h : SubmatchSpec env Gen.rx_klog_durationPattern 5 find) (s : List Char) :
+theorem newDurationFromString_of_regexp (env : Env) (re : Re) (hre : SameMarked re Expect.duration) (find : Str → List Str)
+    (h : SubmatchSpec env re 5 find) (s : List Char) :
     (GoSrc.NewDurationFromString find s).res = (Dur.parse s).map Dur.toGo :=
-  newDurationFromString_eq find (durFind_of_spec env find h) s
+  newDurationFromString_eq find (durFind_of_spec env re hre find h) s
 
 end KlogV.GoTie
